@@ -463,6 +463,34 @@ static void mode_zchain(void) {
   const size_t* L = g_full ? ladder_f : ladder_q; int nl = g_full ? 32 : 20;
   int maxlen = g_full ? 4 : 3;
   long idx = 0;
+  /* chains through size 0 (the "empty dynamic array"): zero-initialised block of a bytes (or NULL) -> re-allocated to 0 -> grown to b:
+     every one of the b bytes must read zero */
+  { static const size_t za[] = { 0 /* = NULL */, 1, 8, 40, 1000 }, zb[] = { 1, 5, 8, 9, 16, 100, 5000 };
+    for (int ia = 0; ia < 5; ia++) for (int ib = 0; ib < 7; ib++) for (int v = 0; v < 6; v++) {
+      long my = idx++;
+      if ((my % g_workers) != g_worker) continue;
+      g_case = my;
+      size_t sz3[3] = { za[ia] ? za[ia] : 1, 8, zb[ib] };
+      CASE_BEGIN("zchain #%ld %s chain=%zu>0>%zu", my, zg_names[v], za[ia], zb[ib]);
+      VF_INC(nodes); VF_INC(checks);
+      dirty_classes(sz3, 3);
+      size_t al = (v == 2 || v == 3) ? 32 : (v == 5 ? 64 : 0), off = (v == 5 ? 16 : 0);
+      uint8_t* p = NULL;
+      if (za[ia]) { p = (uint8_t*)(v == 5 ? mi_zalloc_aligned_at(za[ia], 64, 16) : (al ? mi_zalloc_aligned(za[ia], al) : mi_zalloc(za[ia]))); if (p == NULL) { VIOL("null-result", "zalloc"); return; } }
+      uint8_t* q = (uint8_t*)(v == 1 ? mi_recalloc(p, 0, 1) : v == 3 ? mi_recalloc_aligned(p, 0, 1, 32) : zg_call(v, p, 0));
+      if (q == NULL) { VIOL("null-result", "re-allocation to size 0 returned NULL"); return; }
+      uint8_t* r = (uint8_t*)zg_call(v, q, zb[ib]);
+      VF_INC(transitions);
+      if (r == NULL) { VIOL("null-result", "growth from size 0 returned NULL"); return; }
+      for (size_t t = 0; t < zb[ib]; t++) if (r[t] != 0) { VIOL("grow-not-zero", "%zu -> 0 -> %zu (%s): byte %zu reads 0x%02x, expected 0", za[ia], zb[ib], r == q ? "in place" : "moved", t, r[t]); return; }
+      if (al && (((uintptr_t)r + off) % al) != 0) { VIOL("realloc-lost-alignment", "growth from size 0 = %p", (void*)r); return; }
+      if (vf_model_alloc(r, zb[ib], al, off, 0, 1, "rezalloc") < 0) return;
+      VF_INC(nontrivial);
+      if (release_block(vf_nlive - 1, 0) != 0) return;
+      if (vf_err_count > 0) { VIOL("error-callback", "mimalloc reported error %d", vf_err_last); return; }
+      if (my == g_stop_at) return;
+    }
+  }
   /* all strictly increasing chains of length 2..maxlen (first element = initial zalloc size) */
   int c[4];
   for (int len = 2; len <= maxlen; len++) {
